@@ -25,7 +25,8 @@ Import ListNotations.
 Definition nthQ (l : list Q) (i : nat) : Q := nth i l 0.
 Fixpoint sumQ (l : list Q) : Q := match l with [] => 0 | x :: r => x + sumQ r end.
 Definition lenQ {A} (l : list A) : Q := inject_Z (Z.of_nat (List.length l)).
-Definition meanQ (l : list Q) : Q := sumQ l / lenQ l.
+(* Qred only normalises the representation (Qred q == q); it keeps the numbers small under vm_compute *)
+Definition meanQ (l : list Q) : Q := Qred (sumQ l / lenQ l).
 Definition Qmaxb (a b : Q) : Q := if Qle_bool a b then b else a.
 Definition Qminb (a b : Q) : Q := if Qle_bool a b then a else b.
 Definition maxl (l : list Q) : Q := match l with [] => 0 | x :: r => fold_left Qmaxb r x end.
@@ -38,6 +39,8 @@ Fixpoint diffs (l : list Q) : list Q :=
 Fixpoint map2 {A B C} (f : A -> B -> C) (a : list A) (b : list B) : list C :=
   match a, b with x :: a', y :: b' => f x y :: map2 f a' b' | _, _ => [] end.
 Definition varQ (l : list Q) : Q := let m := meanQ l in meanQ (map (fun x => (x - m) * (x - m)) l).
+
+Definition onset_eps : Q := 1 # 1000000.
 
 (* ---------- stable insertion sort ---------- *)
 Section Sort.
@@ -66,7 +69,6 @@ Definition groups (keys : list Q) (eps : Q) : list (list nat) :=
   | [] => []
   | j :: r => split_groups (nthQ keys) eps j [j] r
   end.
-Definition onset_eps : Q := 1 # 1000000.
 Definition quantise (o : Q) : Q := inject_Z (trunc (10000 * o)).
 Definition enc_groups (onsets : list Q) : list (list nat) := groups (map quantise onsets) onset_eps.
 Definition dec_groups (onsets : list Q) : list (list nat) := groups onsets onset_eps.
@@ -86,12 +88,12 @@ Definition groups_ok (G : list (list nat)) (n : nat) : bool :=
 (* ---------- get_unique_seq ---------- *)
 Definition last_time (onsets offsets : list Q) : Q :=
   let mo := maxl onsets in let mf := maxl offsets in
-  if Qeq_bool mo mf then mo + 1 else mf.
+  if Qle_bool (mf - mo) onset_eps then mo + 1 else mf.
 Definition u_onsets (onsets offsets : list Q) (G : list (list nat)) : list Q :=
   map (fun g => meanQ (map (nthQ onsets) g)) G ++ [last_time onsets offsets].
 
 (* ---------- interpolation ---------- *)
-Definition seg (x0 y0 x1 y1 x : Q) : Q := y0 + (y1 - y0) / (x1 - x0) * (x - x0).
+Definition seg (x0 y0 x1 y1 x : Q) : Q := Qred (y0 + (y1 - y0) / (x1 - x0) * (x - x0)).
 (* piecewise linear through knots sorted by abscissa, extrapolating with the end segments
    (scipy interp1d kind="linear", fill_value="extrapolate"; one knot: constant, as partitura's wrapper) *)
 Fixpoint interp_from (x0 y0 : Q) (rest : list (Q * Q)) (x : Q) : Q :=
@@ -130,19 +132,19 @@ Definition monotonize (s x : list Q) : list Q :=
 (* ---------- tempo curves (x: unique score onsets + last time, s: chord mean performed onsets + last time) ---------- *)
 Definition tempo_average (x s : list Q) : list Q :=
   let smt := monotonize s x in
-  let bp := map2 Qdiv (diffs smt) (diffs x) in
+  let bp := map2 (fun a b => Qred (a / b)) (diffs smt) (diffs x) in
   let xs := removelast x in
   map (zoh (combine xs bp)) xs.
 Definition tempo_derivative (x s : list Q) : list Q :=
   let smt := monotonize s x in
   let f := lin_interp (combine x smt) in
-  map (fun u => f (u + (1 # 2)) - f (u - (1 # 2))) (removelast x).
+  map (fun u => Qred (f (u + (1 # 2)) - f (u - (1 # 2)))) (removelast x).
 
 (* cumulative equivalent onsets *)
 Fixpoint eq_on (first : Q) (bp ds : list Q) (i : nat) : Q :=
   match i with
   | O => first
-  | S k => eq_on first bp ds k + nthQ bp k * nthQ ds k
+  | S k => Qred (eq_on first bp ds k + nthQ bp k * nthQ ds k)
   end.
 
 Definition floor_pdur : Q := 3 # 40.   (* to_matched_score: max(duration_sec, 60 / 200 * 0.25) *)
@@ -185,12 +187,17 @@ Section Codec.
     Definition dec_eq (i : nat) : Q := eq_on 0 dec_bps (diffs dec_x) i.
     Definition dec_raw (j : nat) : Q := dec_eq (gidx G j) - p_timing (nth j P pdefault).
     Definition dec_raws : list Q := map dec_raw (seq 0 (List.length so)).
-    Definition dec_onset (j : nat) : Q := dec_raw j - minl dec_raws.
-    Definition dec_dur (j : nat) : Q :=
-      exp2 (p_art (nth j P pdefault)) * nthQ sd j * nthQ dec_bps (gidx G j).
+    Definition dec_shift : Q := minl dec_raws.     (* performance[:, 0] -= np.min(performance[:, 0]) *)
+    Definition dec_dur_with (bps : list Q) (j : nat) : Q :=
+      exp2 (p_art (nth j P pdefault)) * nthQ sd j * nthQ bps (gidx G j).
+    Definition dec_dur (j : nat) : Q := dec_dur_with dec_bps j.
     Definition dec_vel (v : Q) : Z := Z.max 1 (Z.min 127 (round_half_even (v * 127))).
+    (* one row per score note: onset, duration, velocity *)
     Definition decode : list (Q * Q * Z) :=
-      map (fun j => (dec_onset j, dec_dur j, dec_vel (p_vel (nth j P pdefault)))) (seq 0 (List.length so)).
+      let raws := dec_raws in
+      let m := minl raws in
+      let bps := dec_bps in
+      map (fun j => (nthQ raws j - m, dec_dur_with bps j, dec_vel (p_vel (nth j P pdefault)))) (seq 0 (List.length so)).
   End Dec.
 End Codec.
 
